@@ -386,10 +386,17 @@ def shrink_type(t):
     return out
 
 
+SHRINK_WALL_S = 90         # a failing case that is a hang costs CASE_TIMEOUT_S per attempt: shrinking is bounded in time too
+
+
 def shrink(case, fails, budget=250):
     levels, items = case
     changed = True
-    while changed and budget > 0:
+    t_end = time.time() + SHRINK_WALL_S
+    fails0 = fails
+    def fails(c):
+        return time.time() < t_end and fails0(c)
+    while changed and budget > 0 and time.time() < t_end:
         changed = False
         for i in range(len(items)):
             cand = (levels, items[:i] + items[i + 1:])
